@@ -21,9 +21,11 @@ code runs) on EVERY configuration of spans on a small grid; because the algorith
 many points as there are end points realises every order type.  ExtractResult.overlap / cover / end and Token's properties are
 interpreted from their own ASTs, so a change there is decided too.
 
+  C12.add-mod / C12.unit-candidates / C12.compound (documented at their definitions below): the steps that grow entities over
+                   modifier words, select currency candidates around numbers, and split a currency compound into amounts.
+
 What is not decided: which candidate spans the regex patterns produce for a given sentence, the sub-extractors' own merge
-steps before merge_all_tokens, NumberWithUnitExtractor's prefix/suffix candidate selection, and therefore model-level
-disjointness for a concrete input.  Configurations in which a resolver today lets two overlapping spans survive are genuine
+steps before merge_all_tokens, and therefore model-level disjointness for a concrete input.  Configurations in which a resolver today lets two overlapping spans survive are genuine
 defects with reproducing inputs; they are listed in known_findings.json by configuration class.
 """
 import ast
@@ -38,10 +40,14 @@ DESIGN_REF = 'DESIGN.md#c12'
 META = {
     'text': 'C12 (partial): the overlap resolvers - matched[] sweep of the number and sequence extractors, merge_all_tokens, '
             'add_to of the merged date-time extractors, the number-with-unit model filter - keep their output pairwise disjoint '
-            'on every configuration of candidate spans (all interval order types up to the stated sizes)',
+            'on every configuration of candidate spans (all interval order types up to the stated sizes); the steps that grow or '
+            'split entities afterwards - add_mod of both merged extractors (every token string up to the stated length, every list '
+            'order), the currency candidate selection of NumberWithUnitExtractor.extract (every short text over digit / unit / '
+            'blank), the currency parser\'s compound splitting (every item sequence) - keep them disjoint',
     'note': 'Not decided: which candidates the patterns produce for a sentence; sub-extractor merges before merge_all_tokens; '
-            'prefix/suffix candidate selection of NumberWithUnitExtractor; model-level disjointness on a concrete input. '
-            'Configurations where a resolver lets overlapping spans survive are listed known findings with reproducing inputs.',
+            'model-level disjointness on a concrete input. The token / item languages of the growth and split tabulations abstract '
+            'the resource patterns to words (stated in each rule). Configurations where a step lets overlapping spans survive are '
+            'listed known findings with reproducing inputs.',
     'technique': 'closed-helper tabulation: resolver functions interpreted from their ASTs (whitelisting interpreter, no '
                  'execution of repository code) on all span configurations of a finite grid = all interval order types',
 }
